@@ -1,4 +1,4 @@
-\* quick: the design the property demands (EOF of a candidate => Broken); all 11 kinds, 1..2 objects
+\* quick: the design the property demands (EOF of a candidate => Broken); all 13 kinds, 1..2 objects
 SPECIFICATION Spec
 CONSTANTS Kinds <- AllKinds
   MaxObjs = 2
@@ -6,5 +6,6 @@ CONSTANTS Kinds <- AllKinds
   Damages <- AllDamages
   EOF_IS_BROKEN = TRUE
   TRIM_TWICE = FALSE
+  USED_HOISTED = FALSE
 INVARIANTS TypeOK PropertyHolds StepsAgree DamageHarmless
 CHECK_DEADLOCK FALSE
